@@ -311,8 +311,22 @@ struct World
 			u.rbufs[std::size_t(i)].assign(std::size_t(std::max(n, i == 0 ? 1 : 0)), 0xEE);
 			left -= n;
 		}
+		// scatter lists may contain empty buffers (in front, in the middle, at the end; with a null or a valid address):
+		// they take up no bytes and the datagram continues in the buffers behind them
+		if (rng.coin(1, 3))
+		{
+			int const extra = 1 + rng.choose(2);
+			for (int e = 0; e < extra; ++e)
+				u.rbufs.insert(u.rbufs.begin() + rng.choose(int(u.rbufs.size()) + 1), std::vector<std::uint8_t>());
+			R().count("receive_buffer_lists_with_empty_buffers");
+		}
+		static std::uint8_t dummy[4];
 		std::vector<asio::mutable_buffer> b;
-		for (auto& v : u.rbufs) if (!v.empty()) b.push_back(asio::mutable_buffer(v.data(), v.size()));
+		for (auto& v : u.rbufs)
+		{
+			if (!v.empty()) b.push_back(asio::mutable_buffer(v.data(), v.size()));
+			else b.push_back(rng.coin() ? asio::mutable_buffer(dummy, 0) : asio::mutable_buffer());
+		}
 		return b;
 	}
 
